@@ -1109,15 +1109,18 @@ static void alloc_many(int count, size_t lo, size_t hi, int ops_mix) {
   }
 }
 /* worker thread: allocates, frees part, exits (its remaining blocks are freed by the main thread afterwards) */
-typedef struct { int t; int heapid; int count; size_t lo, hi; uint64_t seed; int mode; int victim; } worker_t;   /* mode 0: allocate, free half, exit; 1: allocate, exit with everything live; 2: free every block of heap `victim`, exit */
+static mi_subproc_id_t vf_subproc_b;      /* a second sub-process (workload "subproc") */
+typedef struct { int t; int heapid; int count; size_t lo, hi; uint64_t seed; int mode; int victim; int in_b; } worker_t;   /* mode 0: allocate, free half, exit; 1: allocate, exit with everything live; 2: free every block of heap `victim`, exit */
 static void* worker_main(void* arg) {
   worker_t* w = (worker_t*)arg;
   cur_t = w->t; cur_theap = w->heapid;
 #if defined(VF_SHIM)
   vf_cur_thread = w->t;
 #endif
+  if (w->in_b) mi_subproc_add_current_thread(vf_subproc_b);      /* (before the thread's first allocation) */
   vf_logf("{\"e\":\"tstart\",\"t\":%d,\"h\":%d}", w->t, w->heapid); vf_log_line_end();
-  if (w->mode != 2) alloc_many(w->count, w->lo, w->hi, w->mode == 0);
+  if (w->mode == 4) { do_collect(1); }                            /* a thread that only collects (adopts and releases what it may) */
+  else if (w->mode != 2) alloc_many(w->count, w->lo, w->hi, w->mode == 0);
   int k = 0;
   if (w->mode == 0) { for (int s = 0; s < MAXSLOTS; s++) if (slots[s].p && slots[s].heap == w->heapid && (k++ % 2) == 0) op_free_slot(s, FR_free); }
   if (w->mode == 2) { for (int s = 0; s < MAXSLOTS; s++) if (slots[s].p && slots[s].heap == w->victim) op_free_slot(s, FR_free); }
@@ -1130,8 +1133,9 @@ static void* worker_main(void* arg) {
   return NULL;
 }
 static int next_thread_id = 1;
+static int worker_in_b = 0;
 static int run_worker_ex(int count, size_t lo, size_t hi, int mode, int victim) {
-  worker_t w; w.t = next_thread_id++; w.heapid = next_heap_id++; w.count = count; w.lo = lo; w.hi = hi; w.seed = vf_rand(); w.mode = mode; w.victim = victim;
+  worker_t w; w.t = next_thread_id++; w.heapid = next_heap_id++; w.count = count; w.lo = lo; w.hi = hi; w.seed = vf_rand(); w.mode = mode; w.victim = victim; w.in_b = worker_in_b;
   pthread_t th; pthread_create(&th, NULL, worker_main, &w); pthread_join(th, NULL);
   return w.heapid;
 }
@@ -1171,6 +1175,17 @@ static void workload_alloc_base(const char* wl) {
   else if (!strcmp(wl, "relay")) {   /* a producer thread exits with everything live (several segments, full pages); a consumer thread frees all of it and exits too:
                                         nobody who touched that memory is alive any more, it must still be given back */
                                   int ph = run_worker_ex(260, 200000, 262000, 1, 0); run_worker_ex(0, 0, 0, 2, ph); alloc_many(10, 1, 100000, 1); }
+  else if (!strcmp(wl, "subproc")) {  /* threads of a second sub-process leave blocks behind; threads of the main sub-process need fresh segments (they visit the
+                                        abandoned segments but may not touch those of the other sub-process); after the blocks were freed a thread of the second
+                                        sub-process collects: its memory must be released */
+                                  static int made = 0; if (!made) { vf_subproc_b = mi_subproc_new(); made = 1; }
+                                  int h1 = run_worker_ex(60, 100, 20000, 1, 0);                       /* main sub-process, exits with everything live */
+                                  worker_in_b = 1; int h2 = run_worker_ex(60, 100, 20000, 1, 0); worker_in_b = 0;     /* second sub-process, the same */
+                                  run_worker_ex(6, (size_t)9 << 20, (size_t)12 << 20, 0, 0);         /* main sub-process: fresh segments, visits */
+                                  alloc_many(4, (size_t)9 << 20, (size_t)12 << 20, 0);
+                                  for (int s = 0; s < MAXSLOTS; s++) if (slots[s].p && (slots[s].heap == h2 || slots[s].heap == h1)) op_free_slot(s, FR_free);
+                                  worker_in_b = 1; run_worker_ex(0, 0, 0, 4, 0); worker_in_b = 0;     /* second sub-process: collect */
+                                }
   else if (!strcmp(wl, "mix")) { alloc_many(120, 1, 2048, 1); alloc_many(20, 8193, 600000, 1); alloc_many(1, 17u << 20, 20u << 20, 0); run_worker(60, 1, 70000); }
   else { fprintf(stderr, "unknown workload %s\n", wl); exit(2); }
 }
